@@ -418,6 +418,14 @@ func tsMenu(r *rng, root reflect.Type) (map[reflect.Type]*js.Schema, []reflect.T
 			if i == 2 {
 				faithful = false
 			}
+		case reflect.Array, reflect.Slice:
+			i := r.intn(3)
+			s = []*js.Schema{{Type: "array"}, {}, {Type: "string"}}[i]
+			if i == 2 {
+				faithful = false
+			}
+		case reflect.Map, reflect.Pointer, reflect.Interface:
+			continue
 		default:
 			i := r.intn(4)
 			s = []*js.Schema{{Type: "integer"}, {Type: "number"}, nil, {Type: "integer", Minimum: js.Ptr(0.0)}}[i]
